@@ -290,6 +290,23 @@ def battery():
     return out
 
 
+def battery_inf():
+    """objectives with non-finite values (death penalty: +inf for min tasks, -inf for max tasks outside a feasible box).
+    Used by C02 only: cost/fitness truth must also hold for infinite objective values.  Not part of the universe because
+    infinite costs drive many update rules into inf-inf arithmetic, which is the business of C05/C06, not of C02."""
+    out = []
+    for a, opt in enumerate(opt_names()):
+        base = dict(base_configs()[opt])
+        base["fitness_error"] = None
+        for d, minmax in enumerate(("min", "max")):
+            obj = {"fam": "penalty", "p": {"thr": 6.0, **({"scale": -1.0} if minmax == "max" else {})}}
+            spec = {"vars": [["cm", [-10.0, -10.0, -10.0], [10.0, 10.0, 10.0]]], "obj": [obj], "weights": None,
+                    "minmax": minmax, "seed": 5000 + 10 * a + d}
+            out.append({"i": f"n{len(out)}", "opt": opt, "cfg": dict(base, max_cycles=6), "cfg_class": "battery-inf", "spec": spec,
+                        "mode": "serial", "workers": None})
+    return out
+
+
 EXT_SIZE = 60000
 
 
